@@ -342,14 +342,17 @@ package table
 
 // C13 (lookups inside a block): the binary search over the restart points answers with a restart point of the
 // searched range [rstart, rlimit) - the last one whose key is not above the sought key, or the first of the range when
-// all are above - and with the entry offset recorded for that restart point.
+// all are above - and with the entry offset recorded for that restart point. When the searched range is empty and lies
+// behind the last restart point, the answer is the end of the entries, not the word that follows the restart array
+// (the restart count; F17).
 //@ func (*block).seek
 //@   props C13 C02
 //@   safety off
 //@   sortedinput the keys at the restart points of a block increase, as the writer emits them (a block that passed its checksum is such a block)
 //@   requires 0 <= rstart && rstart <= rlimit && rlimit <= b.restartsLen && 0 <= b.restartsOffset && b.restartsOffset + 4*b.restartsLen <= len(b.data) && len(b.data) <= 1099511627776
 //@   ensures [C02,C13:the-restart-point-found-lies-in-the-searched-range] rstart <= index && (index < rlimit || index == rstart)
-//@   ensures [C02,C13:the-offset-is-the-one-recorded-for-that-restart-point] offset == le32(b.data, b.restartsOffset + 4*index)
+//@   ensures [C02,C13:the-offset-is-the-one-recorded-for-that-restart-point] index < b.restartsLen ==> offset == le32(b.data, b.restartsOffset + 4*index)
+//@   ensures [C02,C13:past-the-last-restart-point-is-the-end-of-the-entries] index >= b.restartsLen ==> offset == b.restartsOffset
 // (for restartIndex the recorded offsets are taken to increase with the restart point, as the writer emits them; a
 // block that passed its checksum is such a block)
 //@ func (*block).restartIndex
@@ -360,3 +363,19 @@ package table
 //@   ensures [C02,C13:the-restart-point-of-an-offset-lies-in-the-searched-range] rstart - 1 <= result && result < rlimit || (rstart == rlimit && result == rstart - 1)
 //@   ensures [C02,C13:its-recorded-offset-is-not-above-the-given-one] (result >= rstart) ==> le32(b.data, b.restartsOffset + 4*result) <= offset
 //@   ensures [C02,C13:the-next-restart-point-is-above-the-given-offset] (result + 1 < rlimit) ==> le32(b.data, b.restartsOffset + 4*(result+1)) > offset
+
+// C13 / C02 (walking a block): a forward step taken from before the first entry starts at the start of the
+// iterator's range - entry offset and restart index alike (the restart index is what a later turn backwards searches
+// from); a successful step leaves the iterator facing forward, an unsuccessful one without error is the end.
+//@ func (*blockIter).Next
+//@   props C13 C02
+//@   safety off
+//@   assumepre
+//@   at after stmt i.offset = i.offsetStart
+//@     assert [C02,C13:a-walk-restarted-before-the-first-entry-starts-at-the-start-of-the-range] i.restartIndex == i.riStart && i.offset == i.offsetStart
+//@   ensures [C02,C13:a-step-forward-leaves-the-iterator-facing-forward] result ==> (i.dir == dirForward && i.err == nil)
+//@   ensures [C02,C13:no-entry-and-no-error-is-the-end] (!result && i.err == nil) ==> i.dir == dirEOI
+//@ func (*blockIter).reset
+//@   props C13 C02
+//@   safety off
+//@   ensures [C02,C13:reset-returns-to-the-start-of-the-range] i.restartIndex == i.riStart && i.offset == i.offsetStart && i.dir == dirSOI && len(i.key) == 0 && isnil(i.value)
